@@ -16,7 +16,7 @@ m = {
  "engines": [{"name": "hcsa", "path": "/verif/hcsa", "serves_properties": BUILT,
    "kind_free_text": "repository-specific static analyser over go/types + go/ssa + VTA call graph (golang.org/x/tools v0.29.0); rebuilds its view of /repo on every run, executes no hc code"}],
  "checks": [],
- "notes": "All checks are static analyses of /repo's current working tree; no hc code, test or solver is executed. Defects of the pinned tree were repaired by 57 'fix:' commits in /repo (see /verif/known_findings.json and DESIGN.md section 4). /verif/seeded holds the breaking changes used to test the checker (reverts of the fix commits and changes seeded by independent sub-agents in seven rounds, all detected by the check of their own property; first-pass detection of the last four rounds 25, 26, 24 and 35 of 40, DESIGN.md section 9), /verif/benign the behaviour-preserving refactorings (all but the residuals documented in DESIGN.md section 10 are silent), /verif/hunt the demonstrations of the defect hunts (DESIGN.md section 4, rows 23-57). Seven findings are recorded, not repaired (C05-R4, C08-R5, C10-R1, C10-R2, C10-R3, C17-R4 x2: /verif/findings). The setup command builds the checker; if /verif/bin/hcsa is missing the registered commands fail, they do not fall back to anything.",
+ "notes": "All checks are static analyses of /repo's current working tree; no hc code, test or solver is executed. Defects of the pinned tree were repaired by 57 'fix:' commits in /repo (see /verif/known_findings.json and DESIGN.md section 4). /verif/seeded holds the breaking changes used to test the checker (reverts of the fix commits and changes seeded by independent sub-agents in eight rounds, 377 in all, all detected by the check of their own property; first-pass detection of the last five rounds 25, 26, 24, 35 and 32 of 40, DESIGN.md section 9), /verif/benign the behaviour-preserving refactorings (all but the residuals documented in DESIGN.md section 10 are silent), /verif/hunt the demonstrations of the defect hunts (DESIGN.md section 4, rows 23-57). Seven findings are recorded, not repaired (C05-R4, C08-R5, C10-R1, C10-R2, C10-R3, C17-R4 x2: /verif/findings). The setup command builds the checker; if /verif/bin/hcsa is missing the registered commands fail, they do not fall back to anything.",
  "not_applicable": []
 }
 for pid in sorted(T):
